@@ -75,10 +75,11 @@ def is_record_type(q, ctx=None):
 
 
 class Event(object):
-    __slots__ = ("name", "recv", "args", "result", "node", "guard")
+    __slots__ = ("name", "recv", "args", "result", "node", "guard", "snap")
     def __init__(self, name, recv, args, result, node=None, guard=None):
         self.name, self.recv, self.args, self.result, self.node = name, recv, tuple(args), result, node
         self.guard = guard if guard is not None else tm.TRUE
+        self.snap = None
     def __repr__(self):
         return "%s(%s%s)->%r" % (self.name, ("recv=%r; " % self.recv) if self.recv is not None else "", ", ".join(map(repr, self.args)), self.result)
 
@@ -140,6 +141,7 @@ class Ctx(object):
         self.string_literals_as_ptr = True
         self.global_sorts = {}
         self.log_stores = False   # append Event("store", ...) for every write to heap memory
+        self.snapshot = {}        # callee short name -> [(field, sort)] members of `this` whose values are recorded at the call
         self.functional = set()   # callees whose result is a deterministic function of receiver and arguments (and that write nothing)
         self.merge_ifs = False    # join the two branches of an if into one state (values become ite terms)
 
@@ -207,6 +209,12 @@ class Exec(object):
 
     def store(self, st, lv, val, sort):
         val = self.coerce(val, sort)
+        mn = self._mapnode(lv, sort)
+        if mn is not None:
+            st.heap[mn[0]] = tm.store(self.heap_arr(st, mn[0]), (mn[1], mn[2]), val)
+            if self.ctx.log_stores:
+                st.events.append(Event("store", mn[1], [mn[2], val], val))
+            return
         k = lv[0]
         if k == "local":
             v = st.locals.get(lv[1])
@@ -847,7 +855,10 @@ class Exec(object):
             res = fresh("retobj_" + short, "P")
         if n.get("valueCategory") == "lvalue":
             res = fresh("retref_" + short, "P")      # a call returning a reference yields the address of an object
-        st.events.append(Event(name, recv, args, res, n))
+        ev_ = Event(name, recv, args, res, n)
+        if short in self.ctx.snapshot:
+            ev_.snap = {f: tm.select(self.heap_arr(st, ("f", f, so)), self.ctx.this) for f, so in self.ctx.snapshot[short]}
+        st.events.append(ev_)
         if name not in self.ctx.pure and short not in self.ctx.pure:
             self.havoc_heap(st, name)
             # address-taken locals passed by pointer are in the heap and thereby havocked
